@@ -5,9 +5,9 @@
    files are rejected.  Start of a realization: cached file tensor + 0.1 x fresh draw per entry; the cache is taken at the first
    realization and never replaced, so every realization restarts from the file values (every arithmetic).
    Only statements; every proof is `exact <lemma>` (proofs live in the files imported below). *)
-From Coq Require Import List NArith Bool Arith.
+From Coq Require Import List NArith Bool Arith NArith ZArith Floats.
 Import ListNotations.
-From MT Require Import Arith SweepModel Layout InitModel CtrlModel CliModel CliProofs InitProofs.
+From MT Require Import Arith SweepModel Layout InitModel CtrlModel CliModel CliProofs InitProofs GraphModel MainModel CliModel CliProofs Mt19937 SeededModel CliMain CliMainProofs CliAffinityProofs.
 
 (* well-formed file: accepted, d_k lands at pos(k, layer), every other position keeps its value, the length is unchanged *)
 Theorem C14_reader_positions : forall (num tokn : Type) (is_hash : tokn -> bool) (pnum : tokn -> option num)
@@ -174,4 +174,111 @@ Theorem C14_cache_is_first_tensor : forall (num : Type) (A : Arith num) (K L : n
        fst (fst (step_from_gen num A K L c T s)) = Some (cache_of c T).
 Proof. exact step_from_gen_cache. Qed.
 Print Assumptions C14_cache_is_first_tensor.
+
+(* the command line END TO END (CliMain.cli_main): with --w the library is called with from_init = true and exactly the vector the reader produced from the file, *)
+(* and the result files are the serialisation of that call *)
+Theorem C14_cli_with_affinity_file : forall (A : Arith float) (stoi : str -> option Z) (fs : str -> option (list byte)) 
+         (now : Z) (tokenize : list byte -> list (list str)) (is_hash : str -> bool)
+         (pnum : str -> option float) (puint : str -> option nat) (fmt fmt_int : float -> str)
+         (fmt_nat : nat -> str) (fmt_N : N -> str) (fmt_Z : Z -> str) (word : nat -> str)
+         (reason_name : reason -> str) (argv : list str) (c : cli_cfg) (items : list item) 
+         (nl : bool) (wb : list byte) (w : list float) (sd : Z) (res : result float N),
+       parse_options stoi argv = Some c ->
+       c_wfile c <> [] ->
+       fs (c_adj c) = Some (render_file items nl) ->
+       Forall item_ok items ->
+       fs (c_wfile c) = Some wb ->
+       let starts := flat_map item_src items in
+       let ends := flat_map item_tgt items in
+       let weights := flat_map item_wts items in
+       let nv := get_num_vertices N N.eqb starts ends in
+       let L := match starts with
+                | [] => 0
+                | _ :: _ => length weights / length starts
+                end in
+       let K := c_K c in
+       let size := if c_assort c then K * L else K * K * L in
+       read_affinity float str is_hash pnum puint (c_assort c) (tokenize wb) (repeat (zero A) size) K =
+       AffOk float w ->
+       seed_of stoi now (c_seed c) = Some sd ->
+       factorize_seeded A N N.eqb N N.to_nat (fun (_ _ : nat) (x : float) => x) 
+         (c_directed c) (c_assort c) true starts ends weights (c_r c) (c_maxit c) 
+         (c_nconv c) nv K (zeros float A nv K) (if c_directed c then zeros float A nv K else []) w sd =
+       Ok float N res ->
+       cli_main A stoi fs now tokenize is_hash pnum puint fmt fmt_int fmt_nat fmt_N fmt_Z word
+         reason_name argv =
+       CliOk (c_out c) (result_files A fmt fmt_int fmt_nat fmt_N fmt_Z word reason_name c nv L sd res).
+Proof. exact cli_main_with_affinity_file. Qed.
+Print Assumptions C14_cli_with_affinity_file.
+
+(* a file whose number of values per line differs from --k, or whose number of layer lines differs from the number of layers of the adjacency data, *)
+(* makes the command line end abnormally before anything is computed or written (stage 3) *)
+Theorem C14_cli_mismatching_file_rejected : forall (A : Arith float) (stoi : str -> option Z) (fs : str -> option (list byte)) 
+         (now : Z) (tokenize : list byte -> list (list str)) (is_hash : str -> bool)
+         (pnum : str -> option float) (puint : str -> option nat) (fmt fmt_int : float -> str)
+         (fmt_nat : nat -> str) (fmt_N : N -> str) (fmt_Z : Z -> str) (word : nat -> str)
+         (reason_name : reason -> str) (argv : list str) (c : cli_cfg) (bytes : list byte)
+         (starts ends weights : list N) (wb : list byte),
+       parse_options stoi argv = Some c ->
+       fs (c_adj c) = Some bytes ->
+       parse_adjacency bytes = (starts, ends, weights) ->
+       c_wfile c <> [] ->
+       fs (c_wfile c) = Some wb ->
+       let L := match starts with
+                | [] => 0
+                | _ :: _ => length weights / length starts
+                end in
+       let dl := data_lines str is_hash (tokenize wb) in
+       ~ Forall (fun n : nat => n = c_K c) (counts float str pnum dl) \/ length dl <> L ->
+       cli_main A stoi fs now tokenize is_hash pnum puint fmt fmt_int fmt_nat fmt_N fmt_Z word
+         reason_name argv = CliThrow 3.
+Proof. exact cli_main_mismatching_affinity_file_rejected_KL. Qed.
+Print Assumptions C14_cli_mismatching_file_rejected.
+
+(* conversely, whenever the command line completes with --w, the file had exactly K values on each of exactly L layer lines with distinct layer ids below L *)
+Theorem C14_cli_accepts_only_matching_files : forall (A : Arith float) (stoi : str -> option Z) (fs : str -> option (list byte)) 
+         (now : Z) (tokenize : list byte -> list (list str)) (is_hash : str -> bool)
+         (pnum : str -> option float) (puint : str -> option nat) (fmt fmt_int : float -> str)
+         (fmt_nat : nat -> str) (fmt_N : N -> str) (fmt_Z : Z -> str) (word : nat -> str)
+         (reason_name : reason -> str) (argv : list str) (c : cli_cfg) (d : str)
+         (fl : list (str * list (list str))),
+       parse_options stoi argv = Some c ->
+       c_wfile c <> [] ->
+       cli_main A stoi fs now tokenize is_hash pnum puint fmt fmt_int fmt_nat fmt_N fmt_Z word
+         reason_name argv = CliOk d fl ->
+       exists (bytes : list byte) (starts ends weights : list N) (wb : list byte),
+         fs (c_adj c) = Some bytes /\
+         parse_adjacency bytes = (starts, ends, weights) /\
+         fs (c_wfile c) = Some wb /\
+         (let L := match starts with
+                   | [] => 0
+                   | _ :: _ => length weights / length starts
+                   end in
+          let dl := data_lines str is_hash (tokenize wb) in
+          Forall (fun n : nat => n = c_K c) (counts float str pnum dl) /\
+          c_K c <> 0 /\
+          length dl = L /\
+          L <> 0 /\
+          (exists ids : list nat,
+             Forall2
+               (fun (l : list str) (a : nat) =>
+                exists (t : str) (vs : list str), l = t :: vs /\ puint t = Some a) dl ids /\
+             NoDup ids /\ Forall (fun a : nat => a < L) ids)).
+Proof. exact cli_main_accepts_only_matching_affinity_files_strong. Qed.
+Print Assumptions C14_cli_accepts_only_matching_files.
+
+(* a file that cannot be opened: abnormal end *)
+Theorem C14_cli_missing_file : forall (A : Arith float) (stoi : str -> option Z) (fs : str -> option (list byte)) 
+         (now : Z) (tokenize : list byte -> list (list str)) (is_hash : str -> bool)
+         (pnum : str -> option float) (puint : str -> option nat) (fmt fmt_int : float -> str)
+         (fmt_nat : nat -> str) (fmt_N : N -> str) (fmt_Z : Z -> str) (word : nat -> str)
+         (reason_name : reason -> str) (argv : list str) (c : cli_cfg) (bytes : list byte),
+       parse_options stoi argv = Some c ->
+       fs (c_adj c) = Some bytes ->
+       c_wfile c <> [] ->
+       fs (c_wfile c) = None ->
+       cli_main A stoi fs now tokenize is_hash pnum puint fmt fmt_int fmt_nat fmt_N fmt_Z word
+         reason_name argv = CliThrow 3.
+Proof. exact cli_main_affinity_file_missing. Qed.
+Print Assumptions C14_cli_missing_file.
 
